@@ -2049,7 +2049,7 @@ fn main() {
         .filter(|f| f.sig == "hang" && f.case.is_plain())
         .map(|f| f.case.root_text().to_string())
         .collect();
-    let mut hang_results = shr.resolve_many(&hang_texts, "hang");
+    let hang_results = shr.resolve_many(&hang_texts, "hang");
     // panic signature (stage, file, line) -> key of its class, fixed by its shortest example
     let mut panic_keys: HashMap<String, String> = HashMap::new();
     // (key, example text, signature) of panic classes whose example is still to be shrunk
@@ -2096,7 +2096,7 @@ fn main() {
             (key, format!("input {:?}: {}", trunc(f.case.root_text(), 120), f.detail), f.case.to_json())
         } else {
             let shrunk = if f.sig == "hang" {
-                hang_results.remove(f.case.root_text()).unwrap_or(Shrunk::OutOfTime)
+                hang_results.get(f.case.root_text()).cloned().unwrap_or(Shrunk::OutOfTime)
             } else {
                 shr.shrink(f.case.root_text(), &f.sig)
             };
